@@ -176,7 +176,7 @@ def rule_componentwise(fx, rep):
         else:
             rep.fn(path)
             n_inst += 1
-            ok, why = conj_shape(fx, path, n, comp)
+            ok, why = conj_shape(fx, path, n, comp, ty)
             rep.check(ok, 'SHAPE', inst, 'is_zero is the conjunction of is_zero over all %d components' % n, why, fx.fn(path)['span'], construct=path)
         # zero / one
         for op in ('zero', 'one'):
@@ -203,62 +203,60 @@ def rule_componentwise(fx, rep):
     rep.floor('SHAPE', 'component-wise-ops', n_inst, 21)
 
 
-def conj_shape(fx, path, n, comp):
-    """Decide that a bool function returns AND_i is_zero(self.c_i) by enumerating its
-    (finitely many) paths over the component predicates."""
-    body = fx.body(path)
-    r = Resolver(body)
+def conj_shape(fx, path, n, comp, ty=None):
+    """Decide that a bool function returns AND over all Fq coefficients of `self` of "is zero": the element is a tree of
+    coefficient atoms, an is_zero call on any sub-tree is the conjunction over its leaves, and every path of the function
+    (whatever order, nesting or helper it uses) must return true exactly when all leaves are zero."""
+    import tt
+    selfv = tower_value(fx, ty, 'c')
+    ALL = frozenset(i_ for i_, _ in tower_leaves(selfv))
 
     def transfer(I, fr, t, c, pth):
-        if c.get('trait') == FIELD and c.get('name') == 'is_zero':
-            i = comp_of(r.operand_referent(t['args'][0]), 1)
-            fr.storev(t['dest'], ('bool', ('comp', i, t['span'])))
+        if c.get('trait') == FIELD and c.get('name') == 'is_zero' and len(t['args']) == 1:
+            v = fr.deref_operand(t['args'][0])
+            lv = tower_leaves(v)
+            if not lv or not all(isinstance(x, LinV) and len(x.t) == 1 and list(x.t.values()) == [1] for _, x in lv):
+                return False
+            fr.storev(t['dest'], ('bool', ('all-zero', frozenset(list(x.t)[0][1:] for _, x in lv))))
             return True
-        return False
-    I = exp.Interp(fx, 'none', extra_transfer=transfer, max_paths=64)
+        return linear_transfer(I, fr, t, c, pth)
+    I = exp.Interp(fx, 'none', extra_transfer=transfer, max_paths=256, inline=lambda q: INL.is_private_helper(fx, q))
+    I.fork_inlined = True
     try:
-        res = I.run(path, [('byref', exp.TOP)])
+        res = I.run(path, [('byref', selfv)])
     except (exp.NotDerivable, exp.Budget) as e:
         return False, 'not derivable: %s' % e
-    comps = set()
     for pth, ret, _ in res:
-        for lab, v in pth.labels:
-            if not (isinstance(lab, tuple) and lab[0] == 'comp' and lab[1] is not None):
-                return False, 'branches on something that is not a component predicate: %r' % (lab,)
-            comps.add(lab[1])
-        if isinstance(ret, tuple) and ret[0] == 'bool' and isinstance(ret[1], tuple) and ret[1][0] == 'comp':
-            comps.add(ret[1][1])
-    if comps != set(range(n)):
-        return False, 'tests components %s, expected all of %s' % (sorted(comps), list(range(n)))
-    for assign in itertools.product([0, 1], repeat=n):
-        # find the path consistent with the assignment
-        val = None
-        matches = 0
-        for pth, ret, _ in res:
-            cons = True
-            for lab, v in pth.labels:
-                truth = assign[lab[1]]
-                taken_true = (v != 0)   # 'otherwise' or 1 = true edge
-                if bool(truth) != taken_true:
-                    cons = False
-                    break
-            if cons:
-                matches += 1
-                if isinstance(ret, exp.Int):
-                    val = ret.v
-                elif isinstance(ret, tuple) and ret[0] == 'bool':
-                    val = assign[ret[1][1]]
-                else:
-                    return False, 'returns a non-boolean / untracked value'
-        if matches != 1:
-            return False, 'path structure not a decision tree (%d paths for %r)' % (matches, assign)
-        if val != int(all(assign)):
-            return False, 'for component zero-pattern %r the function returns %s' % (assign, bool(val))
+        s_true, n_false = set(), 0
+        for lab, taken in pth.labels:
+            x, neg = tt.strip_not(lab)
+            if not (isinstance(x, tuple) and x and x[0] == 'all-zero'):
+                return False, 'branches on something that is not a zero test of coefficients of self: %r' % (lab,)
+            if (taken != 0) != neg:
+                s_true |= x[1]
+            else:
+                n_false += 1
+        if isinstance(ret, exp.Int):
+            if ret.v and (s_true != ALL or n_false):
+                return False, 'returns true although only the coefficients %s were found to be zero (all of %s must be)' % (sorted(s_true), sorted(ALL))
+            if not ret.v and not n_false:
+                return False, 'returns false on a path that zero satisfies'
+            continue
+        if isinstance(ret, tuple) and ret and ret[0] == 'bool':
+            x, neg = tt.strip_not(ret[1])
+            if isinstance(x, tuple) and x and x[0] == 'all-zero' and not neg:
+                if n_false:
+                    continue        # already known non-zero ... then the result must be false: a zero test of more coefficients may still say true
+                if s_true | x[1] != ALL:
+                    return False, 'tests the coefficients %s, expected all of %s' % (sorted(s_true | x[1]), sorted(ALL))
+                continue
+        return False, 'returns %r' % (ret,)
+    # paths with a failed zero test must return false (a later symbolic test could say true)
+    for pth, ret, _ in res:
+        failed = [1 for lab, taken in pth.labels if ((taken != 0) == tt.strip_not(lab)[1])]
+        if failed and not (isinstance(ret, exp.Int) and not ret.v):
+            return False, 'may return true after a coefficient was found non-zero'
     return True, ''
-
-
-FROB_KIND = {('Fq2', (1,)): 'fq2_c1', ('Fq6', (1,)): 'fq6_c1', ('Fq6', (2,)): 'fq6_c2',
-             ('Fq12', (1, 0)): 'fq12_c1', ('Fq12', (1, 1)): 'fq12_c1', ('Fq12', (1, 2)): 'fq12_c1'}
 
 
 def _is_one(m):
@@ -421,14 +419,23 @@ def rule_misc(fx, rep):
         rep.fail('SHAPE', 'Fq12::conjugate', 'Fq12::conjugate not found')
     else:
         rep.fn(path)
-        r = Resolver(b)
-        cs = real_calls(b)
-        ok = len(cs) == 1
-        if ok:
-            c = callee(cs[0][1])
-            ok = c and c.get('trait') == FIELD and c.get('name') == 'negate' and comp_of(r.operand_referent(cs[0][1]['args'][0]), 1) == 1
-        ok = ok and not [w for w in r.d.partial[1]]
-        rep.check(ok, 'SHAPE', 'Fq12::conjugate', 'negates exactly c1', 'conjugate does not consist of exactly negate(self.c1)', fx.fn(path)['span'], construct=path)
+        ty12 = TOWER[2][0]
+        selfv = tower_value(fx, ty12, 'c')
+        I = exp.Interp(fx, 'none', extra_transfer=linear_transfer, inline=lambda q: INL.is_private_helper(fx, q))
+        ok, why = True, ''
+        try:
+            res = I.run(path, [('byref', selfv)])
+            rep.sites(I.call_sites)
+            o = res[0][2].get(1) if len(res) == 1 else None
+            got = dict(tower_leaves(o)) if isinstance(o, exp.Agg) else {}
+            for i_, x in tower_leaves(selfv):
+                want = LinV({'c' + i_: (-1 if i_.startswith('1') else 1)})
+                if got.get(i_) != want:
+                    ok, why = False, 'coefficient c%s becomes %s, expected %s' % (i_, got.get(i_), want)
+                    break
+        except (exp.NotDerivable, exp.Budget) as e:
+            ok, why = False, 'not derivable: %s' % e
+        rep.check(ok, 'SHAPE', 'Fq12::conjugate', 'c0 unchanged, c1 negated (decided in the free module over the coefficients)', why, fx.fn(path)['span'], construct=path)
     # Fq6::mul_by_nonresidue = (xi*c2, c0, c1) by copy provenance
     path = 'bls12_381::fq6::Fq6::mul_by_nonresidue'
     b = fx.body(path)
